@@ -359,3 +359,47 @@ def font_from_rules(passes, ipos, ncols, gattr=None):
     model = "ipos=%d classes=%s gattr=%s gadv=%s passes=%s" % (ipos, ";".join(".".join(map(str, c)) for c in CLASSES), ";".join(".".join(map(str, g)) for g in gattr),
                                                               ".".join(str(500 + 10 * g) for g in range(NG)), "|".join(pm))
     return data, model
+
+
+def gen_reattach_font(r):
+    """positioning passes that attach, re-attach and copy slots (`put_copy` from references that `assoc` turned into
+    temporary copies): the histories in which stale parent pointers of copies matter.  `put_copy` dies on a slot that is
+    attached or has attachments, so the rules keep the copied-to slot free: one slot `x` is attached to `i` in a first pass;
+    a later pass re-attaches `x` (after an `assoc`, which makes later references see a copy of the old `x`) and copies a
+    reference into `i` or another slot."""
+    ncols = 9
+    start = r.randrange(1, 4)
+    ln = r.randrange(3, 5)
+    pat = [((start + k - 1) % 9) for k in range(ln)]                # columns of glyphs start, start+1, ...
+    x, i = sorted(r.sample(range(ln), 2))
+    o = r.choice([k for k in range(ln) if k not in (x, i)])
+    if r.random() < 0.3:
+        x, i = i, x
+
+    def rule(ops):
+        act = []
+        for k in range(ln):
+            act += ops.get(k, [])
+            act.append(OP['NEXT'])
+        act.append(49 if r.random() < 0.8 else 50)
+        return (ln, 0, b"", bytes(act), pat)
+    att = lambda t: [OP['PUSH_BYTE'], t, OP['ATTR_SET'], 2]
+    p0 = {x: att(i)}
+    if r.random() < 0.3:
+        p0[o] = att(r.choice([x, i]))
+    p1 = {}
+    p1[x] = ([OP['ASSOC'], 1, 0] if r.random() < 0.8 else []) + (att(o) if r.random() < 0.8 else att(r.randrange(ln)))
+    tgt = i if r.random() < 0.7 else o
+    src = x if r.random() < 0.7 else r.choice([k for k in range(ln) if k != tgt])
+    p1[tgt] = p1.get(tgt, []) + [OP['PUT_COPY'], (src - tgt) & 255]
+    passes = [(0, r.randrange(1, 3), [rule(p0)]), (0, r.randrange(1, 3), [rule(p1)])]
+    if r.random() < 0.4:
+        p2 = {k: att(r.randrange(ln)) for k in range(ln) if r.random() < 0.4}
+        passes.append((0, 1, [rule(p2)]))
+    data, model = font_from_rules(passes, 0, ncols)
+    return data, {"model": model, "kind": "reattach"}
+
+
+def gen_reattach_text(r):
+    base = r.choice(["abcd", "abc", "bcde", "abcabc", "abcdabcd", "cdef", "aabbcc", "abcde"])
+    return [ord(c) for c in base]
